@@ -2,6 +2,7 @@
 """Regenerates the `fixed` list of known_findings.json from /repo's "fix:" commits."""
 import json, subprocess
 PROP = {
+"cache.set_size disables cache invalidation":"C09",
 "union of alternatives of the same JSON type":"C17",
 "fields-set tracking marks fields that were not assigned":"C15",
 "the error reported for a mapping item":"C08",
